@@ -242,3 +242,20 @@ pub fn harness_main(gen: fn(&mut Rng, u64) -> String, run: fn(&str) -> String) {
 		},
 	}
 }
+
+
+/// CPU time consumed by the calling thread, in milliseconds (CLOCK_THREAD_CPUTIME_ID: not affected by how busy the
+/// machine is).  Used for work assertions: a traversal of an input of L bytes whose work is bounded by L/8 steps
+/// cannot burn hundreds of milliseconds of CPU.
+pub fn cpu_ms() -> u64 {
+	let mut ts = libc::timespec { tv_sec: 0, tv_nsec: 0 };
+	unsafe { libc::clock_gettime(libc::CLOCK_THREAD_CPUTIME_ID, &mut ts) };
+	ts.tv_sec as u64 * 1000 + ts.tv_nsec as u64 / 1_000_000
+}
+/// Panics with a message the C03 predicate recognises ("harness: more ...") when the work done since `t0` is out of
+/// all proportion to the input length.
+pub fn assert_work(what: &str, t0: u64, input_len: usize) {
+	let spent = cpu_ms().saturating_sub(t0);
+	let bound = 400 + input_len as u64 / 500;
+	assert!(spent <= bound, "harness: more work than the input bounds: {} took {} ms of CPU for {} bytes (bound {} ms)", what, spent, input_len, bound);
+}
